@@ -10,6 +10,10 @@ let rec int_of_pos (p : positive) : int =
   match p with XH -> 1 | XO q -> 2 * int_of_pos q | XI q -> 2 * int_of_pos q + 1
 let int_of_z (x : z) : int =
   match x with Z0 -> 0 | Zpos p -> int_of_pos p | Zneg p -> - (int_of_pos p)
+let rec int64_of_pos (p : positive) : int64 =
+  match p with XH -> 1L | XO q -> Int64.mul 2L (int64_of_pos q) | XI q -> Int64.add (Int64.mul 2L (int64_of_pos q)) 1L
+let z_str (x : z) : string =
+  match x with Z0 -> "0" | Zpos p -> Printf.sprintf "%Lu" (int64_of_pos p) | Zneg p -> "-" ^ Printf.sprintf "%Lu" (int64_of_pos p)
 let nat_of_int n = let rec go n acc = if n <= 0 then acc else go (n - 1) (S acc) in go n O
 let int_of_nat n = let rec go n acc = match n with O -> acc | S m -> go m (acc + 1) in go n 0
 
@@ -38,6 +42,7 @@ let rec kind_of (s : string) : kind =
   match s.[0] with
   | 'T' -> KTuple (nat_of_int (int_of_string (String.sub s 1 (String.length s - 1))))
   | 'R' -> KReal | 'I' -> KInt | 'B' -> KBool | 'S' -> KString | 'V' -> KRealVec | 'K' -> KBlock
+  | 'U' -> KSize | 'L' -> KLong | 'J' -> KIntVec | 'W' -> KWordVec
   | 'N' -> KRealVecN (nat_of_int (int_of_string (String.sub s 1 (String.length s - 1))))
   | _ -> failwith "kind"
 
@@ -75,7 +80,9 @@ let parse_nested (s : string) : nitem list =
 let value_str = function
   | VNotGiven -> "-"
   | VReal d -> Printf.sprintf "%h" (float_of_dec d)
-  | VInt z -> string_of_int (int_of_z z)
+  | VInt z -> z_str z
+  | VInts l -> "[" ^ String.concat ";" (List.map z_str l) ^ "]"
+  | VWords l -> "[" ^ String.concat ";" (List.map hex l) ^ "]"
   | VBool b -> if b then "1" else "0"
   | VString s -> "s" ^ hex s
   | VReals l -> "[" ^ String.concat ";" (List.map (fun d -> Printf.sprintf "%h" (float_of_dec d)) l) ^ "]"
@@ -111,6 +118,25 @@ let () =
         print_endline (presult_str (parse_config (strict = "1") (schema_of sch) (unhex c)))
       | "NP" :: strict :: sch :: c :: _ ->
         print_endline (if nparse_config (strict = "1") (parse_nested sch) (unhex c) then "accept" else "reject")
+      | "IX" :: t :: _ ->
+        (match parse_index true (unhex t) with
+         | IndexError -> print_endline "error"
+         | IndexOutOfFuel -> print_endline "outoffuel"
+         | IndexOk gs -> print_endline ("ok " ^ String.concat ";" (List.map (fun (n, v) -> hex n ^ "=" ^ String.concat "," (List.map z_str v)) gs)))
+      | "TL" :: t :: _ -> print_endline (hex (to_lower (unhex t)))
+      | "CA" :: _ :: _ -> print_endline "ok"
+      | "KM" :: c :: k :: _ ->
+        let r = key_string_values (unhex c) (unhex k) in
+        print_endline (String.trim ((if r.ksv_err then "error " else if r.ksv_found then "found " else "notfound ") ^ String.concat "|" (List.map hex r.ksv_all)))
+      | "KV" :: k :: calls :: _ ->
+        (* get_keyval<double> for the same keyword, several texts and parse modes, one parser object *)
+        let cl = List.map (fun c -> match String.split_on_char ':' c with
+            | [m; cf] -> let (rq, ov) = (match m with "r" | "q" -> (true, false) | "o" | "n" | "d" -> (false, true) | _ -> (false, false)) in
+              ((rq, ov), unhex cf) | _ -> failwith "KV") (String.split_on_char '|' calls) in
+        let outs = kv_seq { kv_set = false; kv_val = KvInit } (unhex k) cl in
+        print_endline (String.concat ";" (List.map (fun o ->
+            Printf.sprintf "%d/%d/%s" (if o.ko_found then 1 else 0) (if o.ko_err then 1 else 0)
+              (match o.ko_val with KvInit -> Printf.sprintf "%h" 111.0 | KvDefault -> Printf.sprintf "%h" 222.0 | KvUser d -> Printf.sprintf "%h" (float_of_dec d))) outs))
       | "KS" :: calls :: _ ->
         (* successive key_lookup calls on one parser object: conf:key:savepos|conf:key:savepos|... *)
         let cl = List.map (fun c -> match String.split_on_char ':' c with
